@@ -70,6 +70,8 @@ pub const KINDS: &[Kind] = &[
     k("send-foreign-target", Want::Exec, "<send event=\"e\" target=\"http://localhost:1/x\"/>"),
     k("send-unsupported-type", Want::Exec, "<send event=\"e\" type=\"nosuchprocessor\"/>"),
     k("send-unsupported-type-expr", Want::Exec, "<send event=\"e\" typeexpr=\"'x-y'\"/>"),
+    k("send-delayed-unsupported-type", Want::Exec, "<send event=\"e\" delay=\"1s\" type=\"nosuchprocessor\"/>"),
+    k("send-delayed-unsupported-type-expr", Want::Exec, "<send event=\"e\" delayexpr=\"'500ms'\" typeexpr=\"'x-y'\"/>"),
     k("send-delay-with-internal-target", Want::Exec, "<send event=\"e\" delay=\"1s\" target=\"#_internal\"/>"),
     k("send-illegal-delayexpr", Want::Exec, "<send event=\"e\" delayexpr=\"'soon'\"/>"),
     k("send-negative-delayexpr", Want::Exec, "<send event=\"e\" delayexpr=\"'-5s'\"/>"),
